@@ -8,7 +8,7 @@
 set -u
 export GOFLAGS=-mod=mod GOPROXY=off GOSUMDB=off GOTOOLCHAIN=local
 OUT=$1; SEED=$2; COUNT=$3; OPRE=${4:-.}; FILERE=${5:-.}
-V=/verif; W=/tmp/mm-$$; EV=/tmp/mm-$$.ev
+V=$(cd "$(dirname "$0")/.." && pwd); W=/tmp/mm-$$; EV=/tmp/mm-$$.ev
 cleanup() { git -C /repo worktree remove --force "$W" >/dev/null 2>&1; rm -rf "$W" "$EV" /tmp/mm-$$.*; }
 trap cleanup EXIT
 git -C /repo worktree add --detach "$W" HEAD >/dev/null 2>&1 || { echo "cannot create worktree"; exit 2; }
